@@ -82,6 +82,7 @@ fn rd(name: &str, flags: u16, ref_id: Option<usize>, pos: Option<usize>, cigar: 
         features: Default::default(),
         template: 0,
         mate: None,
+        stale: None,
     }
 }
 
@@ -112,6 +113,23 @@ const DET: &[&str] = &[
     "det:rich-minimal-unplaced:rps2x2",
     "det:rich-minimal-unplaced:rps3x2",
 ];
+
+/// The hand-made corpus: `DET` plus the generated family of pairs with inconsistent mate fields,
+/// `det:stale-mates:<kind>:<side>:<placement>` (side = which record in file order carries the stale
+/// information; placement = adjacent in one slice / separated in one slice / in different slices).
+fn det_names() -> Vec<String> {
+    let mut v: Vec<String> = DET.iter().map(|s| s.to_string()).collect();
+    for kind in gencram::STALE_KINDS {
+        for side in ["first", "second", "both"] {
+            for placement in ["adjacent", "separated", "across-slices"] {
+                v.push(format!("det:stale-mates:{kind}:{side}:{placement}"));
+            }
+        }
+    }
+    // the coordinator's example: r1 POS 10 PNEXT 50 TLEN 50; r2 POS 50 PNEXT 12 TLEN -50
+    v.push("det:stale-mates:second-read-has-stale-pnext-12-instead-of-10".into());
+    v
+}
 
 fn det_stream(name: &str) -> (Stream, Option<(usize, usize)>) {
     use gencram::{F_FIRST, F_LAST, F_PAIRED, F_UNMAPPED};
@@ -166,6 +184,21 @@ fn det_stream(name: &str) -> (Stream, Option<(usize, usize)>) {
             rd("p0", F_PAIRED | F_LAST | 16, Some(0), Some(21), &[('M', 8)], b"CGGATCAG", &q(8)),
             rd("p0", F_PAIRED | F_FIRST | gencram::F_SUPPLEMENTARY, Some(0), Some(40), &[('H', 8), ('M', 6)], b"GACTAG", &q(6)),
         ],
+        "det:stale-mates:second-read-has-stale-pnext-12-instead-of-10" => vec![
+            rd("p0", F_PAIRED | F_FIRST, Some(1), Some(10), &[('M', 8)], b"GGCTATAT", &q(8)),
+            rd("p0", F_PAIRED | F_LAST | 16, Some(1), Some(40), &[('M', 8)], b"GACTAGCA", &q(8)),
+        ],
+        n if n.starts_with("det:stale-mates:") => {
+            let placement = n.rsplit(':').next().unwrap();
+            let mut v = vec![rd("p0", F_PAIRED | F_FIRST, Some(0), Some(1), &[('M', 8)], b"ACGTACGT", &q(8))];
+            if placement != "adjacent" {
+                v.push(rd("f0", 0, Some(0), Some(3), &[('M', 4)], b"GTAC", &q(4)));
+            }
+            v.push(rd("p0", F_PAIRED | F_LAST | 16, Some(0), Some(21), &[('M', 8)], b"CGGATCAG", &q(8)));
+            v.push(rd("f1", 0, Some(0), Some(30), &[('M', 4)], b"TAGC", &q(4)));
+            layout = if placement == "across-slices" { Some((2, 1)) } else { None };
+            v
+        }
         n if n.starts_with("det:rich-minimal-unplaced:") => {
             layout = match &n["det:rich-minimal-unplaced:".len()..] {
                 "rps1x3" => Some((1, 3)),
@@ -232,6 +265,20 @@ fn det_stream(name: &str) -> (Stream, Option<(usize, usize)>) {
         r.template = if r.name.as_deref() == Some(b"p0") || r.name.as_deref() == Some(b"rich-pair") { 1000 } else { i };
     }
     gencram::finalize_mates(&mut reads);
+    if name == "det:stale-mates:second-read-has-stale-pnext-12-instead-of-10" {
+        reads[1].mate_pos = Some(12);
+        reads[1].stale = Some("stale-pnext");
+    } else if name.starts_with("det:stale-mates:") {
+        let parts: Vec<&str> = name.split(':').collect();
+        let kind = *gencram::STALE_KINDS.iter().find(|k| **k == parts[2]).expect("stale kind");
+        let idx: Vec<usize> = reads.iter().enumerate().filter(|(_, r)| r.mate.is_some()).map(|(i, _)| i).collect();
+        if parts[3] != "second" {
+            gencram::make_mate_info_stale(&mut reads, idx[0], kind, refs.len());
+        }
+        if parts[3] != "first" {
+            gencram::make_mate_info_stale(&mut reads, idx[1], kind, refs.len());
+        }
+    }
     if name == "det:pair-plus-supplementary-in-slice" {
         // the supplementary alignment of the first segment points at the primary of the last one
         let last = reads[1].clone();
@@ -263,7 +310,8 @@ fn gen_cases(ctx: &Ctx) -> Vec<Case> {
         }
         return cases;
     }
-    for name in DET {
+    for name in det_names() {
+        let name = &name;
         let (_, layout) = det_stream(name);
         cases.push(Case {
             class: name.to_string(),
@@ -323,6 +371,11 @@ fn gen_cases(ctx: &Ctx) -> Vec<Case> {
         }
         if rng.chance(3, 10) {
             o.pm_supp_of_pair = *rng.pick(&[200, 600]);
+        }
+        if rng.chance(3, 10) {
+            // pairs whose mate fields disagree in one direction or both: must come back as written
+            o.pm_stale_mates = *rng.pick(&[150, 500, 1000]);
+            o.pm_pair = o.pm_pair.max(400);
         }
         if rng.chance(1, 4) {
             // rich -> minimal -> rich adjacency for stale-state observation
@@ -615,10 +668,18 @@ fn pair_class(c: &Case, s: &Stream, i: usize) -> String {
     let Some(j) = w.mate else {
         return if w.is_paired() { "paired-flag-without-mate-record".into() } else { "unpaired".into() };
     };
-    if c.slice_of(i) != c.slice_of(j) {
-        return "mate-in-other-slice".into();
-    }
     let m = &s.reads[j];
+    // which record (in file order) carries mate information that disagrees with its mate
+    let (fst, snd) = if i < j { (w, m) } else { (m, w) };
+    let stale = match (fst.stale.is_some(), snd.stale.is_some()) {
+        (false, false) => "",
+        (true, false) => ":first-in-file-has-inconsistent-mate-fields",
+        (false, true) => ":second-in-file-has-inconsistent-mate-fields",
+        (true, true) => ":both-have-inconsistent-mate-fields",
+    };
+    if c.slice_of(i) != c.slice_of(j) {
+        return format!("mate-in-other-slice{stale}");
+    }
     let (first, second) = if i < j { (w, m) } else { (m, w) };
     let rel = match (first.is_unmapped(), second.is_unmapped()) {
         (true, true) => "both-unmapped".to_string(),
@@ -635,7 +696,7 @@ fn pair_class(c: &Case, s: &Stream, i: usize) -> String {
         }
         _ => "one-segment-unmapped".to_string(),
     };
-    format!("mate-in-same-slice:{rel}")
+    format!("mate-in-same-slice:{rel}{stale}")
 }
 
 struct Cmp {
@@ -1211,6 +1272,16 @@ fn run_case(ctx: &Ctx, idx: u64, c: &Case) -> CaseOut {
         if r.is_minimal() {
             o.count("records_minimal", 1);
         }
+        if let (Some(kind), Some(j)) = (r.stale, r.mate) {
+            let place = if c.slice_of(i) != c.slice_of(j) { "across-slices" } else if i.abs_diff(j) == 1 { "same-slice-adjacent" } else { "same-slice-separated" };
+            let side = match (s.reads[j].stale.is_some(), i < j) {
+                (true, _) => "both",
+                (false, true) => "first-only",
+                (false, false) => "second-only",
+            };
+            o.count(&format!("records_with_inconsistent_mate_fields[{place}:{side}]"), 1);
+            o.count(&format!("records_with_inconsistent_mate_fields[{kind}]"), 1);
+        }
         if r.is_paired() && r.flags & gencram::F_SUPPLEMENTARY != 0 {
             o.count("records_supplementary_segment_of_a_pair", 1);
         }
@@ -1282,6 +1353,7 @@ fn main() {
         "signatures of symptoms that a stream class of the generator explains (record without qualities, unmapped record without bases, placed unmapped record without bases, nameless record, supplementary segment of a pair) carry that class; all other symptoms keep their plain signature",
         "every file that reads back is read again with ONE reader through every iteration API (read_container into one reused Container -> slices -> lazy cram::Record -> try_clone_from_alignment_record into one reused RecordBuf; records() second pass; alignment_records() trait objects into the reused RecordBuf; records() abandoned half-way and restarted after a seek); each path must deliver exactly the records of the fresh pass (names of nameless records included); rich and minimal records are made adjacent inside slices and across slice/container boundaries (counters adjacent[...])",
         "with preserve_read_names=false only the primary segments of a template are required to share their regenerated name (supplementary/secondary records are stored detached with their own name)",
+        "pairs are generated both with mutually consistent mate fields (SAMv1 TLEN rule) and with mate fields that disagree with the mate in one direction or both (stale PNEXT/RNEXT, flipped mate-reverse/mate-unmapped bits, TLEN of wrong magnitude/sign/zero); in both cases the expected read-back is exactly the written mate fields",
         "a writer call that returns Err or panics is counted (writer_rejected / writer_panics) and is not a violation; TLEN of generated pairs follows SAMv1 1.4.9 (leftmost..rightmost mapped base, + for the leftmost segment, first in file on ties, 0 across references or with an unmapped segment)",
     ] {
         rep.assumptions.push(a.into());
@@ -1310,6 +1382,16 @@ fn main() {
         }
         for k in bnd::required() {
             rep.floor(&k, g(&k), 1);
+        }
+        for place in ["same-slice-adjacent", "same-slice-separated", "across-slices"] {
+            for side in ["first-only", "second-only", "both"] {
+                let k = format!("records_with_inconsistent_mate_fields[{place}:{side}]");
+                rep.floor(&k, g(&k), 20);
+            }
+        }
+        for kind in gencram::STALE_KINDS {
+            let k = format!("records_with_inconsistent_mate_fields[{kind}]");
+            rep.floor(&k, g(&k), 40);
         }
         rep.floor("records_supplementary_segment_of_a_pair", g("records_supplementary_segment_of_a_pair"), 50);
         rep.floor("records_without_qualities", g("records_without_qualities"), 100);
